@@ -1,6 +1,6 @@
 (* C10 - All views of the board describe one consistent legal position. *)
 From Coq Require Import NArith List Bool.
-From Arimaa Require Import Types U64 Board Engine Cells Rules Monitors StepLemmas GenLemmas Invariant Traps Setup.
+From Arimaa Require Import Types U64 Board Engine Cells Rules Monitors StepLemmas GenLemmas Invariant Traps Setup Pending.
 Open Scope N_scope.
 
 (* every state satisfying the (inductive) play-phase invariant has a well-formed board: each occupied
@@ -33,3 +33,12 @@ Print Assumptions C10_traps.
 Theorem C10_wf_setup : forall s n, SetupInv s n -> WFb (board s).
 Proof. intros s n H. exact (si_wf s n H). Qed.
 Print Assumptions C10_wf_setup.
+
+(* every play-phase state reachable from the initial state or from a legal start position is without trap violations
+   (the finished setup occupies the four home ranks only, which contain no trap) *)
+Theorem C10_traps_reachable : forall s pp, ReachL s -> ph s = PlayPhase pp -> legal_traps (cell (board s)).
+Proof.
+  intros s pp R P. destruct (reachL_inv s R) as [[n Inv]|[pp0 (_ & L & _)]]; [|exact L].
+  rewrite (si_phase s n Inv) in P. discriminate.
+Qed.
+Print Assumptions C10_traps_reachable.
